@@ -3,6 +3,7 @@ package checks
 import (
 	"bytes"
 	"fmt"
+	"strings"
 
 	"github.com/tormoder/fit"
 
@@ -185,6 +186,58 @@ func c18Case(c *lib.Ctx, idx uint64) {
 		if !c18Compare(c, p, f, b) {
 			okAll = false
 		}
+		// The same file with a wrong file CRC, or without its CRC bytes: every record is
+		// complete, Decode reports the error and returns the File - whose messages must have
+		// been expanded like those of the intact file (expansion belongs to the message, not to
+		// the successful end of the file).
+		b2 := append([]byte{}, b...)
+		what := "with a wrong file CRC"
+		free := -1
+		var defined [16]bool
+		for i := range p.Records {
+			if p.Records[i].IsDef {
+				defined[p.Records[i].Local&15] = true
+			}
+		}
+		for l := 15; l >= 0; l-- {
+			if !defined[l] {
+				free = l
+				break
+			}
+		}
+		switch v := (idx + uint64(len(b))) % 4; {
+		case v == 0:
+			b2[len(b2)-1] ^= 0x5A
+		case v == 1:
+			b2 = b2[:len(b2)-2]
+			what = "without its two CRC bytes"
+		case free >= 0:
+			// one more record at the end of the data, on a local type that was never defined:
+			// the data section itself ends in an error, after every message was complete
+			p2 := *p
+			p2.Records = append(append([]ref.Record(nil), p.Records...), ref.Record{Local: byte(free), Data: [][]byte{{0x00}}})
+			b2 = p2.Bytes()
+			what = "that ends with a record of an undefined local type"
+		default:
+			b2[len(b2)-2] ^= 0x01
+		}
+		c.SetInflight(b2)
+		f2, derr2, out2 := lib.GuardedDecode(b2)
+		c.Eval()
+		if out2.Panicked || out2.Hang {
+			c.Violation(b2, "Decode of a file %s panicked/hung: %s", what, out2.Panic)
+			lib.ShadowUnknown()
+			return
+		}
+		if derr2 == nil || f2 == nil {
+			c.Violation(b2, "Decode of a file %s: error %v, File returned: %v (want an error and the File)", what, derr2, f2 != nil)
+			lib.ShadowUnknown()
+			return
+		}
+		if !c18Compare(c, p, f2, b2) {
+			okAll = false
+		}
+		c.Count("files_decoded_"+strings.ReplaceAll(what, " ", "_"), 1)
 	}
 	// The same files as one chained stream.
 	c.SetInflight(chain)
